@@ -914,7 +914,7 @@ func (fr *Frame) backEdge(from, head *ssa.BasicBlock, cond string) {
 type candidate struct{ name, term string }
 
 func (fr *Frame) candidatesTop(l *Loop, phiVals map[*ssa.Phi]Val, st *State) []candidate {
-	if !fr.top {
+	if !fr.top || (fr.ex.fc != nil && fr.ex.fc.NoInfer) {
 		return nil
 	}
 	return fr.candidates(l, phiVals, st)
